@@ -6,7 +6,8 @@
       is UNDEFINED (strict evaluation) - so `guards and e` holds exactly when `e` holds, wherever the read sits.
    2. [uinr_step]: the compiled action takes the original step (successors related again) under [action_ok].
    3. [uinr_valid_plan]: the two problems accept the same plans from related states.
-   4. witnesses that [action_ok] cannot be dropped: [uinr_cond_assign_unsound], [uinr_cond_read_incomplete]. *)
+   4. witnesses that [action_ok] cannot be dropped: [uinr_cond_read_incomplete]; [uinr_cond_assign_ok]: the former
+      unsoundness witness (conditional assignment) is inside the fragment since fix c019d78. *)
 From Coq Require Import List ZArith NArith QArith Qcanon Bool Lia.
 Import ListNotations.
 Require Import UPV.Core.Expr UPV.Core.Eval UPV.Core.Interp UPV.Planning.Problem UPV.Planning.Sem.
@@ -594,9 +595,9 @@ Section UinrStep.
   Lemma tracker_piece e d : In e effs -> uc (e_fl e) = Some d -> piece I' (mk_tracker d e) = [tres d e].
   Proof.
     intros He Ed. unfold piece. cbn [mk_tracker e_vars]. rewrite (tracked_vars e d He Ed). cbn [instances map]. f_equal.
-    unfold eval_effect, tres. cbn [mk_tracker e_args e_cond e_val e_fl e_kind eval].
-    destruct (evals_l false I' (e_args e)); [|reflexivity].
-    destruct (eval false (e_cond e) I') as [[[|]| |]|]; reflexivity.
+    all: unfold eval_effect, tres; cbn [mk_tracker e_args e_cond e_val e_fl e_kind eval];
+      destruct (evals_l false I' (e_args e)); [|reflexivity];
+      destruct (eval false (e_cond e) I') as [[[|]| |]|]; reflexivity.
   Qed.
 
   Lemma in_xl r : In r xl <->
@@ -829,7 +830,7 @@ Section UinrStep.
             * apply existsb_exists in Hread. destruct Hread as [r [Hr Er]]. apply fexp_eqb_eq in Er. subst r.
               assert (Ev' : evals false I' (e_args e) = Some vs) by (rewrite <- evals_l_is_evals, (args_same e He); exact Ev).
               destruct (guard_true I I' (e_fl e) d (e_args e) vs _ HR Hd Hr Gall Ev') as [Et _]. cbn [mk_interp fl] in Et.
-              destruct (sf_comp_cases (d, vs) Hdc) as [Ec|[Ec _]]; rewrite Ec; [reflexivity | exact Et].
+              destruct (sf_comp_cases (d, vs) Hdc) as [Ec2|[Ec2 _]]; rewrite Ec2; [reflexivity | exact Et].
           + (* conflict: excluded by spec_effects_ok *)
             exfalso.
             assert (Hex : exists y, In y acts /\ ae_key y = (f, vs)).
@@ -1088,6 +1089,7 @@ Module UinrW.
   Definition um : list (N * N) := [(0%N, 9%N)].        (* x = fluent 0 is tracked, its companion is fluent 9 *)
   (* fluents: 0 = x (no initial value), 1 = c (false), 2 = g (false), 3 = y (0) *)
   Definition s0 : state := fun f a => match f with 0%N => None | 3%N => Some (VNum (zq 0)) | _ => Some (VBool false) end.
+  Definition s0c : state := fun f a => match f with 1%N => Some (VBool true) | _ => s0 f a end.
 
   (* (1) conditional assignment: a = [if c then x := 5], b = [pre x = 5; g := true], goal g *)
   Definition P1 : problem :=
@@ -1128,16 +1130,20 @@ Module UinrW.
   Definition dflt (f : N) : Qc := zq 5.
 End UinrW.
 
-(* finding C06-uinr-conditional-assignment-marks-defined: the companion is set although the assignment did not fire *)
-Lemma uinr_cond_assign_unsound :
-  umap_ok UinrW.um UinrW.P1 = true /\ uinr_ok UinrW.um UinrW.P1 = false /\
+(* former finding C06-uinr-conditional-assignment-marks-defined (fixed in /repo by c019d78: the tracker effect carries the
+   condition of the assignment): the problem is now INSIDE the proved fragment, and both problems agree on [a; b]
+   whether c is false (x stays undefined: b is not applicable) or true *)
+Lemma uinr_cond_assign_ok :
+  uinr_ok UinrW.um UinrW.P1 = true /\
   uinr_rel UinrW.um UinrW.s0 (uinr_init UinrW.um UinrW.dflt UinrW.s0) /\
-  valid_plan false (uinr_compile UinrW.um UinrW.P1) (uinr_init UinrW.um UinrW.dflt UinrW.s0) UinrW.plan1 = true /\
-  valid_plan false UinrW.P1 UinrW.s0 UinrW.plan1 = false.
+  valid_plan false (uinr_compile UinrW.um UinrW.P1) (uinr_init UinrW.um UinrW.dflt UinrW.s0) UinrW.plan1 = false /\
+  valid_plan false UinrW.P1 UinrW.s0 UinrW.plan1 = false /\
+  valid_plan false (uinr_compile UinrW.um UinrW.P1) (uinr_init UinrW.um UinrW.dflt UinrW.s0c) UinrW.plan1 = true /\
+  valid_plan false UinrW.P1 UinrW.s0c UinrW.plan1 = true.
 Proof.
-  split; [vm_compute; reflexivity|]. split; [vm_compute; reflexivity|].
+  split; [vm_compute; reflexivity|].
   split; [apply (uinr_init_rel UinrW.um UinrW.dflt UinrW.P1); vm_compute; reflexivity|].
-  split; vm_compute; reflexivity.
+  repeat split; vm_compute; reflexivity.
 Qed.
 
 (* finding C07-uinr-guard-on-conditional-read: the guard is required although the effect does not fire *)
